@@ -22,12 +22,12 @@ REPO = os.environ.get("FORSYS_REPO", "/repo")
 PID = "C05"
 RULE = ("instances = tissue (equilibrium | deformed amp x pattern | scaled | sub-tissue | cell deletions) x rhs (static | velocity) x allow_negatives x method; "
         "non-trivial = at least one junction row and one unknown; classes = (rows, cols, path, rhs, method, active-set size)")
-BOUND = {"quick": "2 bases x {equilibrium, 3 amplitudes x 4 patterns, 2 scales} + all sub-tissues of a 7-cell base + all 1- and 2-cell deletions of an 11-cell base, x 2 rhs x 2 allow_negatives x 4 methods x angle limit x options omitted / spelled out at their defaults (deviation bound 2 on options, full product on the deformed family)",
+BOUND = {"quick": "3 bases x {equilibrium, 3 amplitudes x 4 patterns, 2 scales} with deviation bound 2 (bound 3 on the smallest base) over 10 axes: variant, right-hand side {static, velocity, velocity with a fast common drift}, allow_negatives, 4 methods, map, cell order, angle limit, point counts (uniform / two-point interfaces among sampled ones), options (omitted / spelled out at their defaults / use_std / initial conditions); a single strongly unbalanced junction at every position (240 bumps, d=2); shipped dumps; all sub-tissues of a 7-cell base and all 1- and 2-cell deletions of an 11-cell base (d=1)",
          "thorough": "4 bases, all sub-tissues of an 11-cell base, all 1-,2- and 3-cell deletions, full option product"}
 ASSUMPTIONS = ["KKT tolerance 1e-9 x scale (default path); iterative back-ends: feasible and cost within (1+1e-4) ('lsq') / (1+1e-6) ('lsq_linear') of the certified optimum; scale = max(1,|A|max) x max(1,|b|max)",
                "'lsq_linear' is judged on consistent systems only (as the statement says)",
                "with allow_negatives=True a solution with negative tensions is only required to solve the square system exactly"]
-REQUIRED_TAGS = {"all": ["rawinv_only_last_negative", "rawinv_only_first_negative", "rawinv_only_multiplier_negative", "path:inv", "path:nnls-fallback", "path:lsq", "path:lsq_linear", "rhs:velocity", "unique", "square", "wide", "active_bound", "noisy", "fixture", "angle_limited", "defaults_spelled_out", "initial_condition:zero_at", "initial_condition:previous_with_exact_zero", "use_std", "rhs:velocity_drift"]}
+REQUIRED_TAGS = {"all": ["rawinv_only_last_negative", "rawinv_only_first_negative", "rawinv_only_multiplier_negative", "path:inv", "path:nnls-fallback", "path:lsq", "path:lsq_linear", "rhs:velocity", "unique", "square", "wide", "active_bound", "noisy", "fixture", "angle_limited", "defaults_spelled_out", "initial_condition:zero_at", "initial_condition:previous_with_exact_zero", "use_std", "rhs:velocity_drift", "mixed_point_counts"]}
 
 
 KW_MORE = [{"initial_condition": ["zero_at", 3]}, {"initial_condition": ["ramp"]}, {"initial_condition": ["previous", 0.3, 1]}, {"initial_condition": ["zero_every", 3, 0]}]
@@ -198,6 +198,7 @@ class Solver(ProductSystem):
                 "map": [["m", 0.05, 0.02], ["id"]],
                 "order": self._orders(base),
                 "limit": ["inf", "excluding"],
+                "k": [3, ["mod3", 0, 3, 1], ["mod3", 2, 0, 0]],       # interior points per interface: two-point interfaces among sampled ones
                 "kw": [None, {"use_std": False}, {"verbose": False, "use_std": False}, {"use_std": True}, {"initial_condition": ["ones"]}, {"initial_condition": ["zero_at", 0]},
                        {"initial_condition": ["previous", 0.2, 1]}, {"initial_condition": ["previous", 0.1, 0]}] + (KW_MORE if self.bound > 3 else [])}      # options spelled out with their default values
 
@@ -236,12 +237,14 @@ class Solver(ProductSystem):
             # the start vector is the answer of an earlier inference of the same tissue in another deformation (a plain list that
             # usually contains exact zeros where that answer sat on the bound), as a user tracking a movie would pass it
             _, amp_, pat_ = cfg["kw"]["initial_condition"]
-            prev = SC.solve_static(at, k=3, cmap=cm, method=None, post=SC.noise_post(amp_, pat_), allow_negatives=False, lab=lab)
+            prev = SC.solve_static(at, k=cfg["k"], cmap=cm, method=None, post=SC.noise_post(amp_, pat_), allow_negatives=False, lab=lab)
             cfg = dict(cfg, kw={"initial_condition": [float(x) for x in prev.forces]} if prev.exc is None else None)
             tags.append("initial_condition:previous")
             if prev.exc is None and any(x == 0 for x in prev.forces):
                 tags.append("initial_condition:previous_with_exact_zero")
-        consistent = var[0] not in ("noise", "bump") and cfg["rhs"] == "static"
+        consistent = var[0] not in ("noise", "bump") and cfg["rhs"] == "static" and (cfg["k"] == 3 or cfg["map"][0] == "id")      # a two-point 'arc' is a chord: not in force balance
+        if cfg["k"] != 3:
+            tags.append("mixed_point_counts")
         if var[0] in ("noise", "bump"):
             tags.append("noisy")
         if cfg["rhs"] in ("velocity", "velocity_drift"):
@@ -259,8 +262,8 @@ class Solver(ProductSystem):
                 nz = SC.noise_post(0.012 * scale * dt / 0.5, 3)
                 post1 = nz if post is None else (lambda j, i, p0=post, p1=nz: p1(*p0(j, i)))
                 post1 = (lambda j, i, p0=post1, dz=complex(dd, dd): (lambda jj, ii: ({k_: z + dz for k_, z in jj.items()}, [[z + dz for z in pts] for pts in ii]))(*p0(j, i)))
-            s, infos, ex = SC.build_series([{"at": at, "k": 3, "cmap": cm, "post": post, "time": 0.0, "lab": lab},
-                                            {"at": at, "k": 3, "cmap": cm, "post": post1, "time": dt, "lab": lab}])
+            s, infos, ex = SC.build_series([{"at": at, "k": cfg["k"], "cmap": cm, "post": post, "time": 0.0, "lab": lab},
+                                            {"at": at, "k": cfg["k"], "cmap": cm, "post": post1, "time": dt, "lab": lab}])
             if ex is not None:
                 return {"viol": [{"what": "ForSys construction raised", "detail": fsutil.exc_str(ex)}], "tags": tags, "cls": "exc"}
             r = SC.solve_frame(s, 0, at, infos[0], method=cfg["method"], allow_negatives=cfg["neg"], solve_kwargs=dict({"b_matrix": "velocity"}, **(cfg["kw"] or {})))
@@ -269,7 +272,7 @@ class Solver(ProductSystem):
             if cfg["limit"] == "excluding":
                 from checks import c10
                 lim = c10.angle_limit_for(at, cm) if len(at["C"]) >= 3 else np.inf
-            r = SC.solve_static(at, k=3, cmap=cm, method=cfg["method"], allow_negatives=cfg["neg"], post=post, lab=lab, angle_limit=lim, solve_kwargs=cfg["kw"])
+            r = SC.solve_static(at, k=cfg["k"], cmap=cm, method=cfg["method"], allow_negatives=cfg["neg"], post=post, lab=lab, angle_limit=lim, solve_kwargs=cfg["kw"])
         if cfg["kw"] and "initial_condition" not in cfg["kw"]:
             tags.append("defaults_spelled_out")
         if cfg["kw"] and "initial_condition" in cfg["kw"] and isinstance(cfg["kw"]["initial_condition"][0], str):
@@ -373,7 +376,8 @@ def build(tier, seed):
         var = tissue_variants(None, [0.02, 0.08, 0.2], [0, 1, 2, 3], [1e-3, 1e3])
         subs = [["sub", "v5x4", S] for S in T.connected_subsets(bases.get("v5x4"), min_size=3)]
         bumps = [["eq"]] + [["bump", j, a, d] for j in range(10) for a in (0.2, 0.35, 0.5) for d in range(8)]
-        return [Solver("whole", [["whole", "v5x5"], ["whole", "v6x5"], ["whole", "v4x4p%d" % (seed + 1)]], 3, var),
+        return [Solver("whole", [["whole", "v5x5"], ["whole", "v6x5"], ["whole", "v4x4p%d" % (seed + 1)]], 2, var),
+                Solver("whole-d3", [["whole", "v4x4p%d" % (seed + 1)]], 3, var[:6]),
                 Solver("bumps", [["whole", "v5x5"]], 2, bumps),
                 ListSystem("shipped-fixtures", [{"files": FURROW[:2], "t": 0, "rhs": rh, "neg": False, "method": m}
                                                 for rh in ("static", "velocity") for m in (None, "lsq_linear")] +
